@@ -39,7 +39,7 @@ HVer2 == phase = 2 /\ Scope = "header" /\ \E b \in 0..255 : h' = [h EXCEPT ![4] 
 
 Sizes == { 0, 1, 84, 85, 86, 87, 88, 94, 95, 96, 97, 98, 239, 240, 241, 242, 2286, 2287, 2288, 2289, 4090, 4091, 4092, 4093, 4094, 4095, 4096, 4097, 4098, 8191, 8192, 8193, 67823, 67824 }
 Pats == { <<>>, <<1>>, <<2>>, <<3, 1>>, <<7>>, <<4095, 2>>, <<4096>>, <<4097>>, <<9, 8, 1>> }   \* <<>> = everything in one read
-SKind == phase = 0 /\ Scope = "sizes" /\ \E kd \in {"strconst", "strconst2", "ident", "name", "noname", "offset", "comment", "lastlf", "code", "lines", "blank"} : sz' = [sz EXCEPT !.kind = kd] /\ phase' = 1 /\ UNCHANGED <<p, h>>
+SKind == phase = 0 /\ Scope = "sizes" /\ \E kd \in {"strconst", "strconst2", "ident", "name", "noname", "offset", "comment", "lastlf", "code", "lines", "blank", "rawstr"} : sz' = [sz EXCEPT !.kind = kd] /\ phase' = 1 /\ UNCHANGED <<p, h>>
 SSize == phase = 1 /\ Scope = "sizes" /\ \E n \in Sizes, pt \in Pats : sz' = [sz EXCEPT !.n = n, !.pat = pt] /\ phase' = 9 /\ UNCHANGED <<p, h>>
 \* "parts": files assembled by the specification delivered under *every* partition into reads (tiny file) or every partition with
 \* <= 3 cuts (a file with a constant of every kind): C09's "however the reader hands over the bytes"
